@@ -324,4 +324,130 @@ theorem C07_missing_required_nonvacuous :
     requiredNodes tmpl = [.names (s "author"), .field (s "title"), .field (s "journal")] := by
   decide +kernel
 
+/-! ### sentence terminators, protected case -/
+
+/-- **Terminated.** If a template satisfies the syntactic condition `endsInSentence` (a
+`sentence` with `add_period`; or a `toplevel` / `join` / `words` / `optional` / `first_of` /
+`tag` / `href` all of whose children do; or an empty or terminated literal) then every value it
+evaluates to is empty or ends with one of `.`, `?`, `!` — as the last atom of the rich text
+(whatever markup surrounds it) and as the last character of `str(text)`.  Lifted to the pipeline:
+every formatted entry whose template satisfies the condition is empty or terminated. -/
+theorem C07_terminated :
+    (∀ fuel ctx t r, endsInSentence t = true → eval fuel ctx t = .ok r →
+      len r = 0 ∨ (Flat.terminated Gen.terminators (sem [] r) = true ∧
+        ∃ pre c, toStr r = pre ++ [c] ∧ [c] ∈ Gen.terminators)) ∧
+    (∀ es items cites mc sorting labels rep fs,
+      formatBibliography es items cites mc sorting labels = (rep, .ok fs) →
+      ∀ f ∈ fs, (∀ it, items f.key = some it → endsInSentence it.template = true) → Terminated f.text) := by
+  constructor
+  · intro fuel ctx t r he h
+    rcases (eval_terminated ctx fuel).1 t r he h with h' | h'
+    · exact Or.inl h'
+    · exact Or.inr ⟨h', toStr_of_terminated h'⟩
+  · intro es items cites mc sorting labels rep fs h f hf hall
+    obtain ⟨e, -, it, hi, hk, he⟩ := formatBibliography_ok_mem h f hf
+    exact (eval_terminated _ _).1 _ _ (hall it (by rw [hk]; exact hi)) he
+
+theorem C07_terminated_nonvacuous :
+    endsInSentence tmpl = true ∧
+    -- a title that already ends with `?` gets no period; the others do
+    view (formatBibliography [art "q" "Zed" "1999" "Why?"] (fun _ => some (item "Zed")) [s "q"] 2 .none .number)
+      = .inr [(s "q", s "1", s "Zed.<newblock>Why?<newblock>J, 1999.")] := by decide +kernel
+
+/-- **Protected case.** (1) `Text.from_latex` puts every character inside braces under one
+`Protected` per brace level (and drops the braces).  (2) `lower`, `upper`, `capfirst`,
+`capitalize` — hence the `apply_func`s `lower` / `capitalize` of `field` nodes — leave the
+protected atoms (characters with their markup) exactly as they are.  (3) A `sentence` node
+(`capfirst`, `capitalize`, `add_period`) leaves the protected atoms of the joined children as
+they are: the period it may append is not protected.  (4) So the value of a `field` node with
+`apply_func` none / lower / capitalize has exactly the protected atoms of the brace structure of
+the field's value. -/
+theorem C07_protected_case :
+    (∀ v r, fromLatex v = .ok r → sem [] r = flatLatex 0 v) ∧
+    (∀ t, protAtoms (sem [] (lowerT t)) = protAtoms (sem [] t) ∧
+          protAtoms (sem [] (upperT t)) = protAtoms (sem [] t) ∧
+          protAtoms (sem [] (RT.capfirst t)) = protAtoms (sem [] t) ∧
+          protAtoms (sem [] (RT.capitalize t)) = protAtoms (sem [] t)) ∧
+    (∀ fuel ctx cf cap ap sep cs r, eval (fuel + 1) ctx (.sentence cf cap ap sep cs) = .ok r →
+      ∃ parts, evalList fuel ctx cs = .ok parts ∧
+        protAtoms (sem [] r) = protAtoms (sem [] (joinParts sep sep sep parts))) ∧
+    (∀ fuel ctx name fn r, fn ≠ .dashify → eval fuel ctx (.field name fn false) = .ok r →
+      ∃ v, ctx.entry.findField name ctx.db = some v ∧ protAtoms (sem [] r) = protAtoms (flatLatex 0 v)) := by
+  refine ⟨fun v r h => sem_fromLatex h,
+    fun t => ⟨protAtoms_lowerT t, protAtoms_upperT t, protAtoms_capfirst t, protAtoms_capitalize t⟩, ?_, ?_⟩
+  · intro fuel ctx cf cap ap sep cs r h
+    rw [eval_sentence] at h
+    split at h
+    · cases h
+    · rename_i parts hp
+      simp only [Except.ok.injEq] at h; subst h
+      exact ⟨parts, hp, protAtoms_sentenceText _ _ _ _ _⟩
+  · intro fuel ctx name fn r hfn h
+    cases fuel with
+    | zero => simp [eval] at h
+    | succ n =>
+      simp only [eval] at h
+      split at h
+      · cases h
+      · rename_i v hv
+        simp only [Bool.false_eq_true, if_false] at h
+        split at h
+        · cases h
+        · rename_i x hx
+          simp only [Except.ok.injEq] at h; subst h
+          refine ⟨v, hv, ?_⟩
+          rw [← sem_fromLatex hx]
+          cases fn with
+          | none => rfl
+          | dashify => exact absurd rfl hfn
+          | lower => exact protAtoms_lowerT x
+          | capitalize => exact protAtoms_capitalize x
+
+theorem C07_protected_case_nonvacuous :
+    -- `{TeX}` keeps its case through lower + capfirst + add_period; the rest does not
+    (eval 3 (ctxOf [art "b" "Zed" "1999" "on {TeX} THINGS"] (art "b" "Zed" "1999" "on {TeX} THINGS") (item "Zed"))
+        (.sentence true false true (.str (s ", ")) [.field (s "title") .lower false])).toOption.map toStr
+      = some (s "On TeX things.") ∧
+    protAtoms (flatLatex 0 (s "on {TeX} THINGS")) = [(.ch 'T', [.prot]), (.ch 'e', [.prot]), (.ch 'X', [.prot])] := by
+  decide +kernel
+
+/-! ### field coverage -/
+
+/-- **Field coverage.** By induction over ALL templates: when a template evaluates to `r`, every
+`field` node that contributes to the output (`printed`: the nodes evaluated on the successful
+path — all children of `join` / `together` / `sentence` / `tag` / `href` / unabbreviated
+`name_part`, the name templates a `names` node evaluates, the children of an `optional` that does
+not fail, the chosen alternative of a `first_of`; not the URL of an `href`, not abbreviated name
+parts) has a value — the field exists (own or inherited), parses, and is passed through the
+node's `apply_func` — and the text of that value occurs in `str(r)` as a contiguous piece:
+literally, or up to letter case when the node is under a `sentence` with `capfirst`/`capitalize`.
+The text of the value is the field's string with the braces removed (`apply_func` none), resp.
+equal to it up to letter case (`lower`, `capitalize`).  Lifted to the pipeline: this holds for
+every formatted entry and its template. -/
+theorem C07_field_coverage :
+    (∀ fuel ctx t r, eval fuel ctx t = .ok r → ∀ o ∈ printed fuel ctx t,
+      ∃ val, fieldValue ctx o = some val ∧ Covers o.caseChanged (toStr val) (toStr r)) ∧
+    (∀ ctx o val, fieldValue ctx o = some val →
+      ∃ v, ctx.entry.findField o.name ctx.db = some v ∧
+        (o.raw = true → o.fn = .none → toStr val = v) ∧
+        (o.raw = false → o.fn = .none → toStr val = stripBraces v) ∧
+        (o.raw = false → (o.fn = .lower ∨ o.fn = .capitalize) → lower (toStr val) = lower (stripBraces v))) ∧
+    (∀ es items cites mc sorting labels rep fs,
+      formatBibliography es items cites mc sorting labels = (rep, .ok fs) →
+      ∀ f ∈ fs, ∃ e ∈ resolvedEntries es cites mc, ∃ it, items e.key = some it ∧ f.key = e.key ∧
+        ∀ o ∈ printed evalFuel (ctxOf es e it) it.template,
+          ∃ val, fieldValue (ctxOf es e it) o = some val ∧ Covers o.caseChanged (toStr val) (toStr f.text)) := by
+  refine ⟨fun fuel ctx t r h o ho => (eval_coverage ctx fuel).1 t r h o ho, fun ctx o val h => fieldValue_text h, ?_⟩
+  intro es items cites mc sorting labels rep fs h f hf
+  obtain ⟨e, hm, it, hi, hk, he⟩ := formatBibliography_ok_mem h f hf
+  exact ⟨e, hm, it, hi, hk, fun o ho => (eval_coverage _ _).1 _ _ he o ho⟩
+
+theorem C07_field_coverage_nonvacuous :
+    -- the three fields the template prints for `A`; `title` is under a sentence with capfirst
+    (printed evalFuel (ctxOf entries (art "A" "Abel" "2001" "On {TeX} things") (item "A Abel")) tmpl).map
+        (fun o => (o.name, o.caseChanged)) = [(s "title", true), (s "journal", false), (s "year", false)] ∧
+    (eval evalFuel (ctxOf entries (art "A" "Abel" "2001" "On {TeX} things") (item "A Abel")) tmpl).toOption.map toStr
+      = some (s "A Abel.<newblock>On TeX things.<newblock>J, 2001.") ∧
+    stripBraces (s "On {TeX} things") = s "On TeX things" := by decide +kernel
+
 end Pybtex.Props
